@@ -3,7 +3,7 @@ import json
 import os
 import shutil
 
-from .. import common, pipeline, tla
+from .. import canary, common, pipeline, tla
 from .. import d_signature as D
 
 CFG = "SPECIFICATION Spec\nINVARIANT InvBindsAgree\nCHECK_DEADLOCK FALSE\n"
@@ -21,6 +21,7 @@ def main(tier):
         with open(scnp, "w") as f:
             json.dump(D.ST, f)
         res = tla.judge("J_Signature", events, chunk=4000, jobs=common.jobs(), env={"VERIF_SCN": scnp})
+        pipeline.canaries(rep, "J_Signature", events[::max(1, len(events) // 40)], canary.signature, env={"VERIF_SCN": scnp}, want=16)
         rep.mark("judge")
         for gi, clause, _ in res["bad"]:
             e = events[gi]
